@@ -182,3 +182,44 @@ impl From<std::num::ParseIntError> for BoxError { #[verifier::external_body] fn 
 #[verifier::external_type_specification]
 #[verifier::external_body]
 pub struct ExParseIntError(std::num::ParseIntError);
+
+// ---- the JSON / form extractors built on BufferedBody: serde as uninterpreted parse functions -------------------
+/// serde::Deserialize: what a byte string parses to, as a JSON document and as a urlencoded form
+pub trait Deserialize<'de>: Sized {
+    spec fn json_of(b: Seq<u8>) -> Option<Self>;
+    spec fn form_of(b: Seq<u8>) -> Option<Self>;
+}
+#[verifier::external_body] pub struct PathError { _p: u8 }
+#[verifier::external_body] pub struct FormError { _p: u8 }
+impl Bytes {
+    /// `<Bytes as AsRef<[u8]>>::as_ref`
+    #[verifier::external_body] pub fn as_ref(&self) -> (r: &[u8]) ensures r@ == self@ { unimplemented!() }
+}
+pub mod serde_json {
+    use super::*;
+    /// serde_json::Deserializer<SliceRead>: remembers exactly the slice it was built from
+    pub struct Deserializer { pub input: Ghost<Seq<u8>> }
+    impl Deserializer {
+        #[verifier::external_body] pub fn from_slice(b: &[u8]) -> (r: Deserializer) ensures r.input@ == b@ { unimplemented!() }
+    }
+}
+pub mod serde_path_to_error {
+    use super::*;
+    /// ASSUMED: the result is a function of the deserializer's input and of nothing else. (`json_of` is "one value from the
+    /// front of the input": pavex does not call `Deserializer::end`, so trailing bytes after the first JSON value are
+    /// ignored — measured by a probe; outside C14's statement, which bounds and identifies the BYTES.)
+    #[verifier::external_body]
+    pub fn deserialize<'de, T: Deserialize<'de>>(d: &mut serde_json::Deserializer) -> (r: Result<T, PathError>)
+        ensures match r { Ok(v) => T::json_of(old(d).input@) == Some(v), Err(_) => T::json_of(old(d).input@) is None }
+    { unimplemented!() }
+}
+pub mod serde_html_form {
+    use super::*;
+    #[verifier::external_body]
+    pub fn from_bytes<'de, T: Deserialize<'de>>(b: &'de [u8]) -> (r: Result<T, FormError>)
+        ensures match r { Ok(v) => T::form_of(b@) == Some(v), Err(_) => T::form_of(b@) is None }
+    { unimplemented!() }
+}
+/// the Content-Type checks (mime parsing) are not part of the size/identity statement: no contract
+#[verifier::external_body] pub fn check_json_content_type(headers: &HeaderMap) -> (r: Result<(), ExtractJsonBodyError>) { unimplemented!() }
+#[verifier::external_body] pub fn check_urlencoded_content_type(headers: &HeaderMap) -> (r: Result<(), ExtractUrlEncodedBodyError>) { unimplemented!() }
